@@ -31,7 +31,7 @@ META = {
     "property_id": "C20",
     "technique": "Coq proof about a small-step machine of the exporter's accept loop over abstract I/O results (induction over connection-script lists of any length) + exhaustive behaviour-sequence correspondence against the real statime-metrics-exporter subprocess",
     "category": "proof",
-    "text": "Theorems of Properties/C20.v: C20_main (for EVERY finite list of connection scripts - any chunking, premature close, oversize, non-GET, reset, write error, any handler outcome - the model tied to the binary satisfies the oracle ok_C20, no exemption), C20_serves_next (unrestricted: after any list of scripts the follow-up GET is being answered within the step budget, the process never exits), C20_accept_error_exits; historic C20_before_fix_* (spin / exit refutations of the loop before commit b7381c9, for all n). The model is tied to the code by running the real binary under all client/observation-socket behaviour sequences up to length 2 (thorough: 3; longer ones sampled) and comparing outcome classes in Coq.",
+    "text": "Theorems of Properties/C20.v: C20_main (for EVERY finite list of connection scripts - any chunking, premature close, oversize, non-GET, reset, write error on the 200 or the 500 path, any handler outcome - the model tied to the binary satisfies the oracle ok_C20, no exemption), C20_serves_next (unrestricted: after any list of scripts the follow-up GET is being answered within the step budget from a response buffer holding exactly this request's handler output, the process never exits), C20_write_error_on_500_survived (handler failure AND client reset together), C20_accept_error_exits; historic C20_before_fix_* (spin / exit refutations of the loop before commit b7381c9, for all n). The model is tied to the code by running the real binary under all client/observation-socket behaviour sequences up to length 2 (thorough: 3; longer ones sampled) and comparing outcome classes in Coq.",
     "design_ref": "DESIGN.md section 6 (C20), section 7 (F19)",
     "level_note": "Trusted: Coq 8.16.1 kernel + vm_compute; the hand-written model of exporter.rs (validated by correspondence, not verified); the mapping from concrete client behaviours to abstract read/handler/write results in checks/c20.py; tokio, Linux TCP/Unix-socket semantics and timing (observed, with deadlines); no axioms. F19 is repaired (b7381c9); no known finding is excused.",
 }
@@ -49,9 +49,17 @@ assert len(GET_2048) == 2048 and len(GET_2049) == 2049 and len(OVER_2048) == 204
 
 OBS_MODES = ["valid", "trunc", "invalid", "refused", "early"]
 
+SLOW = 0.30       # a slow observation socket answers after this many seconds
+
 # symbol -> (kind of client, argument)
+#   G:<m>   well-formed GET, patient client, observation socket behaves as <m>
+#   GS:<m>  the same with a SLOW observation socket (accept, wait SLOW, then <m>)
+#   GR:<m>  complete GET, then the client RESETS while the reply is pending: the observation
+#           socket holds its answer <m> until the reset has been delivered, so write_all fails -
+#           on the 200 path (<m> = valid) or on the 500 path (<m> = early / invalid)
 SYMBOLS = (["G:" + m for m in OBS_MODES] + ["S:valid", "S:refused", "GB:valid", "P",
-           "C0", "Cn", "H0", "Hn", "O3", "O2", "OB", "R2", "GR"])
+           "C0", "Cn", "H0", "Hn", "O3", "O2", "OB", "R2",
+           "GR:valid", "GR:early", "GR:invalid", "GS:valid", "GS:early"])
 
 
 def coq_bytes(b):
@@ -85,14 +93,21 @@ def reads_term(chunks, end):
 
 
 def conn_term(chunks, end, hnd_ok, wr_ok, gone):
-    return "Conn (mkConn %s %s %s %s)" % (reads_term(chunks, end), "HOk" if hnd_ok else "HErr",
+    # the bytes the handler appends to the response buffer are not observed by this check
+    # (status codes and liveness only; the content is C19's business): left empty
+    return "Conn (mkConn %s %s %s %s)" % (reads_term(chunks, end), "(HOk [])" if hnd_ok else "(HErr [])",
                                           "WOk" if wr_ok else "WErr", "true" if gone else "false")
 
 
 def model_item(sym):
     """The abstract I/O script that the behaviour `sym` stands for."""
-    if sym.startswith("G:"):
-        return conn_term([GET], None, sym == "G:valid", True, False)
+    if sym == "GR":
+        sym = "GR:valid"
+    if sym.startswith("G:") or sym.startswith("GS:"):
+        return conn_term([GET], None, sym.endswith(":valid"), True, False)
+    if sym.startswith("GR:"):
+        # request read completely, handler outcome by the observation socket, write_all fails
+        return conn_term([GET], None, sym == "GR:valid", False, True)
     if sym.startswith("S:"):
         return conn_term([GET[:3], GET[3:30], GET[30:]], None, sym == "S:valid", True, False)
     if sym.startswith("GB:"):
@@ -107,12 +122,13 @@ def model_item(sym):
         "O2": conn_term([OVER_2048], "eof", True, True, False),
         "OB": conn_term([GET_2049], "eof", True, True, False),
         "R2": conn_term([b"GE"], "err", True, True, True),
-        "GR": conn_term([GET], None, True, False, True),
     }[sym]
 
 
 # --------------------------------------------------------------------------
 # Driving the real binary
+
+GR_STATS = {"played": 0, "held": 0, "confirmed": 0}     # pending-response resets (coverage only)
 
 REACT = 0.30      # base wait for a reaction the server owes (close / response)
 EXTEND = 4.0      # extension while the process is alive and idle (loaded machine)
@@ -146,15 +162,24 @@ def outcome_term(r):
 def play(exp, sym):
     """Plays one client behaviour; returns the Coq term of what the client saw."""
     mode = sym.split(":")[1] if ":" in sym else "valid"
-    exp.obs.set_mode(mode)
+    kind = sym.split(":")[0]
+    exp.obs.set_mode(mode, delay=SLOW if kind == "GS" else 0.0)
+    if kind == "GR":
+        # deterministic: the observation socket holds its answer until the reset is delivered
+        held, confirmed = D.get_then_reset_while_pending(exp, GET)
+        GR_STATS["played"] += 1
+        GR_STATS["held"] += 1 if held else 0
+        GR_STATS["confirmed"] += 1 if confirmed else 0
+        settle(exp, 0.02)
+        return "OGone"
     try:
         s = exp.connect()
     except OSError:
-        return "OGone" if sym in ("C0", "Cn", "R2", "GR") else "ONone"
+        return "OGone" if sym in ("C0", "Cn", "R2") else "ONone"
     try:
-        if sym.startswith("G:") or sym.startswith("GB:") or sym == "P":
-            s.sendall(GET_2048 if sym.startswith("GB:") else POST if sym == "P" else GET)
-            return outcome_term(await_reaction(exp, s))
+        if kind in ("G", "GS", "GB") or sym == "P":
+            s.sendall(GET_2048 if kind == "GB" else POST if sym == "P" else GET)
+            return outcome_term(await_reaction(exp, s, REACT + (SLOW if kind == "GS" else 0.0)))
         if sym.startswith("S:"):
             for part in (GET[:3], GET[3:30], GET[30:]):
                 s.sendall(part)
@@ -180,31 +205,11 @@ def play(exp, sym):
             s = None
             settle(exp)
             return "OGone"
-        if sym == "GR":
-            s.sendall(GET)
-            done = []
-
-            def hook():
-                D.rst_close(s)
-                done.append(1)
-                time.sleep(0.03)
-            exp.obs.hook = hook
-            t_end = time.time() + 1.5
-            while time.time() < t_end and not done and exp.obs.lst is not None:
-                r, _, _ = select.select([exp.obs.lst], [], [], 0.05)
-                if r:
-                    exp.obs.serve_one()
-            exp.obs.hook = None
-            if not done:
-                D.rst_close(s)
-            s = None
-            settle(exp)
-            return "OGone"
         raise ValueError(sym)
     except OSError:
         return "ODropped"
     finally:
-        exp.obs.hook = None
+        exp.obs.delay = 0.0
         if s is not None:
             try:
                 s.close()
@@ -264,11 +269,13 @@ class S(Spec):
     assumptions = [
         "a client that keeps its connection open without sending is outside the property (\"and then goes away\"); the exporter serves connections sequentially",
         "listener-level failures (accept errors) are outside the property; the model exits on them",
-        "reset behaviours are made deterministic by the driver (RST sent while the handler waits on the observation socket)",
+        "reset behaviours are made deterministic by the driver: the observation socket accepts the handler's connection and holds its answer until the client's RST has been delivered (the server-side socket has left /proc/net/tcp); 'refused' cannot be combined with a pending-response reset (nothing to hold)",
     ]
-    rule = ("every sequence over 18 behaviour symbols (GET x 5 observation-socket behaviours, split-write GET x 2, GET whose terminator ends at byte 2048, "
+    rule = ("every sequence over 22 behaviour symbols (GET x 5 observation-socket behaviours, split-write GET x 2, GET whose terminator ends at byte 2048, "
             "POST, full close after 0/n bytes, half close after 0/n bytes, 3000 and exactly 2048 bytes without terminator, terminator ending at byte 2049, "
-            "RST after 2 bytes, RST while the response is pending) of length 0..2 exhaustively (thorough: 0..3), longer ones up to length 4 sampled by seed, each on a fresh exporter "
+            "RST after 2 bytes, RST while the response is pending x 3 observation-socket behaviours (valid = write error on the 200 path; closes early / invalid JSON = "
+            "write error on the 500 path; the observation socket holds its answer until the reset is confirmed delivered), patient GET against a slow (0.3 s) "
+            "observation socket x 2 (valid, closes early)) of length 0..2 exhaustively (thorough: 0..3), longer ones up to length 4 sampled by seed, each on a fresh exporter "
             "process and followed by a well-formed request; a case class is (sequence, outcomes, final state); only the empty sequence is trivial")
     level = "proof"
 
@@ -438,6 +445,7 @@ def run(tier, seed, replay=None):
         "model_impl_disagreements": len(mism),
         "exhaustive": False,
         "exhaustive_up_to_length": 2 if tier == "quick" else 3,
+        "pending_response_resets": dict(GR_STATS),
     })
     if mism:
         c = mism[0]
